@@ -84,7 +84,7 @@ theorem handleSuccess_match (a : Agent) (now : Nat) (m : Msg) (l r : Cand) (src 
     a.handleSuccess now m l r src =
       ((hsFin ((a.takePending now m.tid).1.modPair p.id (hsMark pd)) p pd
           (hsSel ((a.takePending now m.tid).1.modPair p.id (hsMark pd)) p pd).1).modPair p.id
-          fun p => { p with respRecv := p.respRecv + 1 },
+          (Pair.gotResponse now pd.ts),
        (hsSel ((a.takePending now m.tid).1.modPair p.id (hsMark pd)) p pd).2) := by
   rw [handleSuccess_eq, hpd]
   have hp' : (a.takePending now m.tid).1.findPair l r = some p := by rw [takePending_findPair]; exact hp
